@@ -32,6 +32,20 @@ public class Driver {
         V3(Token.T2 t, Object o) { super(t, o); }
     }
 
+    static class V11 extends Variant11<Object, Object, Object, Object, Object, Object, Object, Object, Object, Object, Object> {
+        V11(Token.T0 t, Object o) { super(t, o); }
+        V11(Token.T1 t, Object o) { super(t, o); }
+        V11(Token.T2 t, Object o) { super(t, o); }
+        V11(Token.T3 t, Object o) { super(t, o); }
+        V11(Token.T4 t, Object o) { super(t, o); }
+        V11(Token.T5 t, Object o) { super(t, o); }
+        V11(Token.T6 t, Object o) { super(t, o); }
+        V11(Token.T7 t, Object o) { super(t, o); }
+        V11(Token.T8 t, Object o) { super(t, o); }
+        V11(Token.T9 t, Object o) { super(t, o); }
+        V11(Token.T10 t, Object o) { super(t, o); }
+    }
+
     static int pos;
     static TT parse(String s) throws Unsupported {
         pos = 0;
@@ -86,6 +100,7 @@ public class Driver {
             switch (t.subs.size()) {
             case 2: return new Variant2Codec(build(t.subs.get(0)), build(t.subs.get(1)), (a) -> new V2(new Token.T0(), a), (b) -> new V2(new Token.T1(), b));
             case 3: return new Variant3Codec(build(t.subs.get(0)), build(t.subs.get(1)), build(t.subs.get(2)), (a) -> new V3(new Token.T0(), a), (b) -> new V3(new Token.T1(), b), (c) -> new V3(new Token.T2(), c));
+            case 11: return new Variant11Codec(build(t.subs.get(0)), build(t.subs.get(1)), build(t.subs.get(2)), build(t.subs.get(3)), build(t.subs.get(4)), build(t.subs.get(5)), build(t.subs.get(6)), build(t.subs.get(7)), build(t.subs.get(8)), build(t.subs.get(9)), build(t.subs.get(10)), (x0) -> new V11(new Token.T0(), x0), (x1) -> new V11(new Token.T1(), x1), (x2) -> new V11(new Token.T2(), x2), (x3) -> new V11(new Token.T3(), x3), (x4) -> new V11(new Token.T4(), x4), (x5) -> new V11(new Token.T5(), x5), (x6) -> new V11(new Token.T6(), x6), (x7) -> new V11(new Token.T7(), x7), (x8) -> new V11(new Token.T8(), x8), (x9) -> new V11(new Token.T9(), x9), (x10) -> new V11(new Token.T10(), x10));
             default: throw new Unsupported("variant arity " + t.subs.size());
             }
         default: throw new Unsupported("type " + t.name);
@@ -137,6 +152,7 @@ public class Driver {
         case "variant": {
             int idx; Object o;
             if (v instanceof V2) { V2 x = (V2)v; idx = x.getIndex(); o = idx == 0 ? x.get0().get() : x.get1().get(); }
+            else if (v instanceof V11) { V11 x = (V11)v; idx = x.getIndex(); Object[] os = new Object[]{x.get0(), x.get1(), x.get2(), x.get3(), x.get4(), x.get5(), x.get6(), x.get7(), x.get8(), x.get9(), x.get10()}; o = ((java.util.Optional)os[idx]).get(); }
             else { V3 x = (V3)v; idx = x.getIndex(); o = idx == 0 ? x.get0().get() : (idx == 1 ? x.get1().get() : x.get2().get()); }
             return "{\"variant\":[" + idx + "," + render(o, t.subs.get(idx)) + "]}";
         }
